@@ -123,11 +123,16 @@ def imm_wide(slot, rng, tier):
         for _ in range(n):
             s.add(rng.randrange(lo - span // 10, hi + span // 10))
         out = sorted(s)
-    return out + HUGE
+    # values congruent to a legal one modulo 2^32 / 2^64 (a check placed after a 32-bit wrap would accept them)
+    wraps = []
+    for v in {lo, hi, 0, sc, -sc, (lo + hi) // 2 // sc * sc, 4 * sc, 8 * sc}:
+        if lo <= v <= hi:
+            wraps += [v + 2**32, v - 2**32, v + 2**33, v + 2**64, v - 2**64]
+    return out + HUGE + wraps
 
 
 def reg_wide():
-    return list(range(-1, 34))
+    return list(range(-1, 34)) + [2**32 + 5, 2**32 + 8, -2**32 + 9, 256 + 8, 64 + 9]
 
 
 def default_ops(sig, ctx_idx):
